@@ -139,7 +139,10 @@ def valid_field_text(x, name, value):
 
 
 def expected_get(value):
-    """what reading a field back must give for an assigned value (first line trimmed)"""
+    """what reading a field back must give for an assigned value (first line trimmed; a final newline, which the
+    interface accepts as the terminator of the last line, is not part of the value)"""
+    if value.endswith("\n") and value != "\n":
+        value = value[:-1]
     if "\n" not in value:
         return value.strip()
     first, rest = value.split("\n", 1)
@@ -658,9 +661,10 @@ def run_last(spec, prefix, doc_before, op, nl_liberty):
     return check_step(f, doc_before, op)
 
 
-def explore(part, spec, ops_fn, tree_depth, graph_depth, nl_liberty, base_case, graph_ops_fn=None):
+def explore(part, spec, ops_fn, tree_depth, graph_depth, nl_liberty, base_case, graph_ops_fn=None, extend=None):
     """tree mode to tree_depth (every history replayed), then graph mode (dedupe on the model document) to
-    graph_depth with graph_ops_fn's (smaller) alphabet."""
+    graph_depth with graph_ops_fn's (smaller) alphabet.  extend(op): every operation is applied and checked at every
+    level, but only histories whose operations all satisfy extend() are extended further."""
     doc0 = from_spec(spec)
     text = render(doc0)
     f = parse_impl(text)
@@ -691,7 +695,7 @@ def explore(part, spec, ops_fn, tree_depth, graph_depth, nl_liberty, base_case, 
                 continue
             part.outcomes[outcome_class(doc, op)] += 1
             seen.add(repr(to_spec(nd)))
-            if len(h2) < tree_depth:
+            if len(h2) < tree_depth and (extend is None or extend(op)):
                 rec(h2, nd)
             else:
                 part.traces += 1
